@@ -1028,11 +1028,11 @@ VSdetach(int32 vkey /* IN: vdata key? */)
             if (Hendaccess(vs->aid) == FAIL)
                 HGOTO_ERROR(DFE_INTERNAL, FAIL);
             vs->aid = FAIL;
-
-            /* remove from atom list */
-            if (HAremove_atom(vkey) == NULL)
-                HGOTO_ERROR(DFE_INTERNAL, FAIL);
         } /* end if */
+
+        /* every attach got its own key: this one is released now */
+        if (HAremove_atom(vkey) == NULL)
+            HGOTO_ERROR(DFE_INTERNAL, FAIL);
 
         /* we are done */
         HGOTO_DONE(SUCCEED);
